@@ -228,7 +228,7 @@ PROPS = {
                                        "C11.V.init_recurse.same_probabilities", "C11.V.init_recurse.same_actions", "C11.V.init_recurse.perfect_recall",
                                        "C11.V.init_recurse.distinct_actions", "C11.V.init_recurse.records_infoset", "C11.V.init_recurse.recall_bookkeeping",
                                        "C11.V.init_recurse.empty_chance", "C11.V.init_recurse.single_outcome_elided", "C11.V.init_recurse.empty_player", "C11.V.init_recurse.player_dispatch",
-                                       "C11.V.init_recurse.single_action_same", "C11.V.init_recurse.single_action_recorded_once"]),
+                                       "C11.V.init_recurse.single_action_same", "C11.V.init_recurse.single_action_recorded_once", "C11.V.init_recurse.actions_and_children_paired"]),
                U("c11_compact", ["C11.V.compact.entry_index", "C11.V.compact.insert_returns_index", "C11.V.compact.get_returns_index", "C11.V.compact.dense_preserved", "C11.V.compact.new_dense"]),
                U("c11_constructors", ["C11.V.constructors.chance_infoset", "C11.V.constructors.chance_node", "C11.V.constructors.player_builder", "C11.V.constructors.player_infoset", "C11.V.constructors.num_actions"])],
         kani_functions=[],
